@@ -437,9 +437,10 @@ def run_doc(case, res):
 
 
 # ---------------------------------------------------------------- growth part
-OPENERS = ["<%a", "<%a x=", '<%a x="', "${", "${a|", "<%", "<%!", "% if ", "</%", "<%text>", "<%doc>", "## ", ""]
+ATTR_WITNESS = "'<%a' + ' ='*n + '!' (whitespace and '=' / ',' repeated behind a tag name that is never closed)"
+OPENERS = ["<%a", "<%a x=", '<%a x="', "${", "${a|", "<%", "<%!", "% if ", "%", " \t% ", "</%", "<%text>", "<%doc>", "## ", "  ##", ""]
 UNITS1 = ['"', "'", " ", "\t", "=", ",", "{", "(", "[", "\\", "#", "</%", "<%", "${", "%", "w", "\n", "}", "|", "\\\n", "%%", "'''"]
-TERMS = ["", "!", ">", "}", "%>"]
+TERMS = ["", "!", ">", "}", "%>", "\r", "\rx", "\\"]   # (a lone CR ends neither a control line nor a comment)
 SMALL = [8, 12, 16, 20, 24, 28]
 LARGE = [1000, 2000, 4000, 8000]
 CHILD = r"""
@@ -478,7 +479,8 @@ def growth_families(tier):
                 fams.append((op, u, t))
     if tier == "quick":
         # all single-token units with two terminators, and pair units behind the tag/expression openers
-        sel = [f for f in fams if (f[1] in UNITS1 and f[2] in ("", "!")) or (f[0] in ("<%a", "<%a x=", "${") and f[2] == "!")]
+        sel = [f for f in fams if (f[1] in UNITS1 and f[2] in ("", "!")) or (f[0] in ("<%a", "<%a x=", "${") and f[2] == "!")
+               or (f[0] in ("%", " \t% ", "## ", "  ##", "% if ") and f[1] in ("w", " ", "=", "#") and f[2] in ("\r", "\rx", "\\"))]
         return sel
     return fams
 
@@ -530,13 +532,13 @@ def run_growth(case, res):
             res.violate(
                 "superpolynomial-time",
                 "family %s: CPU seconds by n = %s%s" % (fam, {n: round(t, 4) for n, t in times.items()}, " (CPU cap hit)" if rc != 0 else ""),
-                finding=fid, witness=fam,
+                finding=fid, witness=(ATTR_WITNESS if fid else fam),
             )
             res.count("growth_families_measured")
             continue
         if pts and pts[-1][1] > 4.0:
             # slow but not (yet) judged exponential on the small sizes: do not run the large sizes
-            res.violate("superpolynomial-time", "family %s needs %.1fs CPU at n=%d" % (fam, pts[-1][1], pts[-1][0]), finding=fid, witness=fam)
+            res.violate("superpolynomial-time", "family %s needs %.1fs CPU at n=%d" % (fam, pts[-1][1], pts[-1][0]), finding=fid, witness=(ATTR_WITNESS if fid else fam))
             continue
         pts2, rc2 = measure(op, unit, term, LARGE, cap=60, stop_after=20.0)
         bad = [p for p in pts2 if p[2].startswith("other") or p[2] == "recursion"]
@@ -553,7 +555,7 @@ def run_growth(case, res):
             else:
                 steep = 0
             if steep >= 2:
-                res.violate("superpolynomial-time", "family %s: CPU seconds by n = %s" % (fam, t2), finding=fid, witness=fam)
+                res.violate("superpolynomial-time", "family %s: CPU seconds by n = %s" % (fam, t2), finding=fid, witness=(ATTR_WITNESS if fid else fam))
                 break
         if rc2 != 0:
             res.count("growth_cap_hit_large")
